@@ -151,6 +151,8 @@ structure PTask where
   outcome    : Option Outcome      -- `some` = the asyncio Task is done
   pendingExc : Option Err          -- exception that will leave the wrapper
   sawCancel  : Bool
+  unstarted  : Bool                -- in `_tasks_unstarted`: the wrapper has not taken its first step
+  cancelledEarly : Bool            -- in `_tasks_cancelled_early`: cancelled through the pool while unstarted
   doneCbs    : List (Nat × Nat)    -- gather child slots registered on this task
 deriving Repr, Inhabited
 
@@ -212,6 +214,8 @@ structure Api where
   frame   : AFrame
   sched   : Bool
   outcome : Option Outcome
+  snapE   : List Nat := []        -- flush: the ended registry as snapshotted before its second gather
+  snapC   : List Nat := []        -- flush: the cancelled registry likewise
 deriving Repr, Inhabited
 
 inductive Ref | task (t : Nat) | spawner (m : Nat) | api (a : Nat) | gchild (g i : Nat)
